@@ -348,6 +348,14 @@ _jpeg_read_scanlines(j_decompress_ptr cinfo, _JSAMPARRAY scanlines,
     return 0;
   }
 
+  /* Nothing to deliver.  Passing through would decode the next iMCU row into
+   * the main buffer without delivering any of it, which is a state that
+   * _jpeg_skip_scanlines() does not expect (it would discard that iMCU row and
+   * resume one iMCU row too far down the image.)
+   */
+  if (max_lines == 0)
+    return 0;
+
   /* Call progress monitor hook if present */
   if (cinfo->progress != NULL) {
     cinfo->progress->pass_counter = (long)cinfo->output_scanline;
